@@ -14,7 +14,10 @@ def do_replay(path, as_json):
     with open(path) as f:
         art = json.load(f)
     mod = engine.load(art['property'])
-    ctx = engine.run_case(mod, art['case'])
+    if art.get('history_shards') is not None:
+        ctx = engine.replay_history(mod, art['tier'], art)
+    else:
+        ctx = engine.run_case(mod, art['case'])
     if as_json:
         print('REPLAY-JSON ' + json.dumps(ctx.fails, default=repr))
     else:
@@ -65,6 +68,18 @@ def main(argv=None):
                        'replay': f'./check --replay {os.path.relpath(path, ROOT)}'}, f, indent=1, default=repr)
         r1 = engine.replay_in_fresh_process(path)
         r2 = engine.replay_in_fresh_process(path)
+        if r1 == [] and r2 == []:
+            # passes on its own in a fresh process: replay it after everything its worker had explored before it
+            with open(path, 'w') as f:
+                json.dump({'property': prop, 'tier': a.tier, 'case': fc['case'], 'top_case': fc['top_case'],
+                           'shard': fc['shard'], 'history_shards': fc['history_shards'], 'level': fc['level'],
+                           'failures': fc['failures'],
+                           'note': 'fails only after the earlier states of its worker: replay re-runs them first',
+                           'replay': f'./check --replay {os.path.relpath(path, ROOT)}'}, f, indent=1, default=repr)
+            r1 = engine.replay_in_fresh_process(path)
+            r2 = engine.replay_in_fresh_process(path)
+            if r1 and r1 == r2:
+                print(f'  (depends on process history: {len(fc["history_shards"])} earlier shards are replayed first)')
         if not r1 or r1 != r2:
             agg['harness_errors'].append(f'non-reproducing failure {path}: first={r1} second={r2}')
             continue
